@@ -118,3 +118,100 @@ func bytesEqualFoldRef(s, t []byte) bool {
 	}
 	return j == len(t)
 }
+
+// H_C09_StaleDecoder: ONE inductive step instead of call histories. A decodeState in an ARBITRARY stale
+// condition (symbolic offset and opcode, stale saved error, stale error context, stale key list, a scanner left
+// in the middle of something with a non-empty parse stack, a stale scanner error and byte count) is put through
+// exactly what the exported entry points do (set useNumber, init, unmarshal); the outcome must equal that of a
+// brand-new state. The invariant assumed of pooled states is only disallowUnknownFields == false (no entry
+// point that uses the pool ever sets it).
+func H_C09_StaleDecoder() {
+	texts := []string{`{"b":1,"a":[true,null,"x"]}`, `[1.5,{"k":"v"}]`, `"s"`, `null`, `{"a":{"b":{}}}`, ` {"z":1e400} `}
+	data := []byte(texts[vx.Choose("text", len(texts))])
+	into := vx.Choose("into", 3)
+
+	stale := &decodeState{}
+	stale.data = []byte(`{"old":[`)
+	stale.off = vx.Int("st.off")
+	stale.opcode = vx.Int("st.opcode")
+	if vx.Choose("st.saved", 2) == 1 {
+		stale.savedError = &UnmarshalTypeError{Value: "stale", Offset: 3}
+	}
+	if vx.Choose("st.ctx", 2) == 1 {
+		stale.errorContext = &errorContext{FieldStack: []string{"stale", "field"}}
+	}
+	stale.lastKeys = []string{"stale-key"}
+	stale.useNumber = vx.Bool("st.usenumber")
+	steps := []func(*scanner, byte) int{stateInString, stateEndValue, stateError, stateBeginValue, stateInStringEscU12}
+	stale.scan.step = steps[vx.Choose("st.step", len(steps))]
+	stale.scan.endTop = vx.Bool("st.endtop")
+	stale.scan.parseState = []int{parseObjectKey, parseArrayValue, vx.Int("st.ps")}
+	if vx.Choose("st.scanerr", 2) == 1 {
+		stale.scan.err = &SyntaxError{"stale", 7}
+	}
+	stale.scan.bytes = int64(vx.Int("st.bytes"))
+
+	run := func(d *decodeState, validate bool) (out []byte, keys []string, errKind int) {
+		d.useNumber = true
+		if validate {
+			if err := checkValid(data, &d.scan); err != nil {
+				return nil, nil, 1
+			}
+		}
+		d.init(data)
+		var err error
+		var res interface{}
+		switch into {
+		case 0:
+			var v interface{}
+			err = d.unmarshal(&v)
+			res = v
+		case 1:
+			var m map[string]interface{}
+			err = d.unmarshal(&m)
+			res = m
+		case 2:
+			var s []interface{}
+			err = d.unmarshal(&s)
+			res = s
+		}
+		if err != nil {
+			if _, ok := err.(*UnmarshalTypeError); ok {
+				return nil, nil, 2
+			}
+			return nil, nil, 3
+		}
+		out, _ = Marshal(res)
+		return out, d.lastKeys, 0
+	}
+	validate := vx.Choose("validate", 2) == 1
+	var o1, o2 []byte
+	var k1, k2 []string
+	var e1, e2 int
+	panicked := vx.CatchPanic(func() {
+		o1, k1, e1 = run(stale, validate)
+		o2, k2, e2 = run(&decodeState{}, validate)
+	})
+	vx.Assert(!panicked, "C09/stale-decoder-no-panic")
+	if panicked {
+		vx.Note("panic", []byte(vx.PanicMsg()))
+		return
+	}
+	vx.Assert(e1 == e2, "C09/stale-decoder-same-error-class")
+	vx.Assert(vx.EqBytes(o1, o2), "C09/stale-decoder-same-value")
+	if e1 == 0 && into == 1 && (data[0] == '{' || data[1] == '{') {
+		// the key list is part of the result only when an object is decoded into a map (what json-patch does);
+		// for other destinations the codec leaves lastKeys as it found it (DESIGN appendix B, not compared)
+		same := len(k1) == len(k2)
+		if same {
+			for i := range k1 {
+				if k1[i] != k2[i] {
+					same = false
+				}
+			}
+		}
+		vx.Assert(same, "C09/stale-decoder-same-keys")
+		vx.Reach("C09/stale/object")
+	}
+	vx.Reach("C09/stale/end")
+}
